@@ -153,7 +153,10 @@ def W3(ctx):
     for b in dom[nb]:
         for s in body.blocks[b]["stmts"]:
             if s["k"] == "=" and any(isinstance(p, dict) and p.get("a") == T for p in s["lhs"]["p"]):
-                cleared = True
+                # consumed entirely: a constant (false / Runnable), not "one less"
+                ev_ = strip(body.expr_of_rvalue(s["rv"]))
+                if ev_[0] in ("const", "agg"):
+                    cleared = True
         t = body.term(b)
         if t["k"] == "call" and callee_path(t) in (T + "::set_runnable",) and b != nb:
             cleared = True
@@ -183,19 +186,48 @@ def W3(ctx):
     sinst = prog.ident(sk)
     wakes = [b for (b, t, c) in prog.sites(sinst) if prog.callee_key(c) == T + "::set_runnable"]
     stores = []
+    nonconst = []
     for b, blk in enumerate(sbody.blocks):
         if blk["cleanup"]:
             continue
         for s in blk["stmts"]:
             if s["k"] == "=" and any(isinstance(p, dict) and p.get("a") == T for p in s["lhs"]["p"]):
-                e = sbody.expr_of_rvalue(s["rv"])
-                if "1" in canon(e) or "true" in canon(e):
+                e = strip(sbody.expr_of_rvalue(s["rv"]))
+                if e[0] == "const" and e[1].get("int") == 1:
                     stores.append(b)
-    if wakes and stores and not any(st in sbody.reachable(w) or w in sbody.reachable(st) for w in wakes for st in stores):
-        ctx.ok("W3", sk, "either wakes the parked thread or stores the token, never both", [site_str(prog, sk, wakes[0]), site_str(prog, sk, stores[0])])
+                else:
+                    nonconst.append(canon(e)[:60])
+    # by scenario over the target's state (whatever predicates spell it):
+    #   parked (blocked without a pending operation)       -> woken, and the wake consumes the unpark (no token left behind)
+    #   runnable / yielded / blocked on some object         -> the token is stored on every path (the next park() must return)
+    def scen(blocked, op_none, yielded, terminated):
+        return assume_scenario(prog, {T + "::is_blocked": blocked, "std::option::Option::<T>::is_none": op_none,
+                                      "std::option::Option::<T>::is_some": not op_none, T + "::is_yield": yielded,
+                                      T + "::is_terminated": terminated, T + "::is_runnable": not (blocked or yielded or terminated)})
+    rets = [b for b in range(sbody.n) if sbody.term(b)["k"] == "return"]
+    problems = []
+    if nonconst:
+        problems.append("the token is binary (unpark before park makes exactly the next park return): set_unparked must store the constant "
+                        "`true`, not `%s`" % nonconst[0])
+    if not wakes or not stores:
+        problems.append("wakes=%s stores=%s" % (wakes, stores))
     else:
-        ctx.bad("W3", sk, "set_unparked must either wake (parked) or store the token (not parked) on disjoint paths (wakes=%s, stores=%s)" %
-                (wakes, stores), sfn.loc(), detail="set_unparked")
+        r_parked, _ = PEval(sbody, scen(True, True, False, False)).run()
+        if not any(w in r_parked for w in wakes):
+            problems.append("a parked thread is not woken")
+        if any(st in r_parked for st in stores):
+            problems.append("waking a parked thread also leaves a token behind")
+        for (nm, sc) in (("runnable", scen(False, True, False, False)), ("yielded", scen(False, True, True, False)),
+                         ("blocked on an object", scen(True, False, False, False))):
+            r_, _ = PEval(sbody, sc).run(stop_blocks=set(stores))
+            if any(rb in r_ and rb not in stores for rb in rets):
+                problems.append("an unpark that reaches a %s thread is dropped (no token stored): its next park() blocks although "
+                                "unpark() was called before" % nm)
+    if not problems:
+        ctx.ok("W3", sk, "parked: woken, no token; not parked (runnable / yielded / blocked on an object): token stored on every path",
+               [site_str(prog, sk, wakes[0]), site_str(prog, sk, stores[0])])
+    else:
+        ctx.bad("W3", sk, "unpark token machine of set_unparked: " + "; ".join(problems), sfn.loc(), detail="set_unparked")
 
 
 def _is_take(prog, w):
@@ -401,6 +433,8 @@ def run(ctx):
     from . import guardvocab
     guardvocab.G0(ctx, effects={'unpark', 'wake', 'notify', 'wait'})
     guardvocab.G1(ctx, effects={'unpark', 'wake', 'notify', 'wait'})
+    guardvocab.G2(ctx, scopes=('rt::notify::', 'rt::condvar::', 'rt::park', 'rt::thread::Thread::', 'sync::condvar::'))
+    guardvocab.G3(ctx, scopes=('rt::notify::', 'rt::condvar::', 'rt::park', 'rt::thread::Thread::', 'sync::condvar::', 'sync::notify::', 'thread::'))
     g_state.run_all(ctx, ["S3", "S4", "S7", "S8", "S9"])
     g_sync.run_all(ctx, ["Y1:notify,unpark"])
     W1(ctx)
